@@ -71,7 +71,7 @@ CHECKS.update({
           "Same bounds as C01/C02; S-jump known finding applies.", "DESIGN.md §3 C05", "translation_validation",
           "translation validation over an exhaustively enumerated program universe and operand grid: optimized vs unoptimized bytecode and literal vs variable operand forms must be observationally equal"),
  "C33": U("1,849 (quick) / ~16 k (thorough) erroneous programs obtained by every applicable single error mutation (undefined name, wrong-typed literal, deleted arm, assignment to let, dropped/added/unknown-named argument, unknown field, deleted token, bad escape) of corpus programs x up to 10 variants placing non-ASCII text before the site (earlier lines, same line, inside the same string literal before the site, and as the escaped character itself);",
-          "every diagnostic's primary range lies within the file, on UTF-8 character boundaries, covers the same characters as in the ASCII twin of the text (differential, no hand-written expectations), and intersects the mutated site where that is unambiguous.",
+          "every diagnostic's primary range lies within the file, on UTF-8 character boundaries, covers the same characters as in the ASCII twin of the text (differential, no hand-written expectations), is bracket-balanced when it spans several tokens of a syntactically well-formed text (a construct never cuts through a bracket pair; plus a generated family of erroneous expressions with parenthesised operands), and intersects the mutated site where that is unambiguous.",
           "Secondary labels are only counted; texts on which analysis panics belong to C04.", "DESIGN.md §3 C33"),
  "C34": U("the C04 neighbourhood x EVERY byte offset 0..=len+1 (including offsets inside multi-byte characters) x {errors, definition_at, type_at, completions_at} on check_lsp;",
           "no panic, no abort, no run-away in the analysis or in any query.",
@@ -142,7 +142,7 @@ CHECKS.update({
  "C32": U("call chains of depth <= 2 (quick) / 3 (thorough) over named functions, methods and lambdas spread over three files, five failing operations placed at every statement position, calls with and without arguments, with 0/1/5/40 non-ASCII characters (and 4-byte characters) above the site; plus the statement-layout family (the failing operation on its own line below `let v =` / `v =`, after a comment line, or inside a block initialiser);",
           "error kind, then file:line and function of the failing statement, then the call site of every active call, innermost first (the generator knows every line it emitted).",
           "For `!` on none one leading prelude frame is allowed.", "DESIGN.md §3 C32"),
- "C35": U("all nests of <= 2 (quick) / 3 (thorough) scopes (block, fn, lambda, match arm, for) x 1-2 names x every shadowing pattern, each binding initialised with a distinct constant and each use emitted; definition_at queried at every byte of every use; 82 hover programs;",
+ "C35": U("all nests of <= 2 (quick) / 3 (thorough) scopes (block, fn, lambda, match arm, for) x 1-2 names x every shadowing pattern, each binding initialised with a distinct constant and each use emitted; definition_at queried at every byte of every use; 82 hover programs; 27 member-name programs (struct fields in patterns / constructor arguments / accesses in every order, enum variants, named function arguments, member functions) with go-to-definition at every byte of every marked use;",
           "behavioural ground truth: the constant the compiled program printed names the binding used; definition_at must return that binding's range and type_at the expected type string.",
           "Hover strings asserted only for forms pinned by the repository's lsp tests.", "DESIGN.md §3 C35"),
  "C36": U("echo functions for every type of depth <= 1 (quick) / 2 (thorough) over int/float/bool/string/void/array/tuples/option/result/#host structs and enums (incl. void fields), 289 two-argument swap functions, value grids of 2-3 boundary values per leaf; the bindings are generated from the working tree and compiled into a scratch crate at check time;",
